@@ -78,6 +78,9 @@ func registerIntrinsics(in *Interp) {
 		}
 		return in.mkByteStr(bs)
 	}
+	I["vGoID"] = func(in *Interp, a []Value, _ ssa.CallInstruction) Value {
+		return in.B.Const(in.WordBits, uint64(in.curG))
+	}
 	I["vEqStr"] = func(in *Interp, a []Value, _ ssa.CallInstruction) Value {
 		n := in.nondetName(str(a[0]))
 		if in.atomVars == nil {
